@@ -674,3 +674,121 @@ package otr3
 //@   ensures [C04.finish.keyid,C01.install.keyid] result == nil ==> c.keys.ourKeyID == old(c.ake.keys.ourKeyID) + 1 && c.keys.theirKeyID == old(c.ake.keys.theirKeyID)
 //@   ensures [C01.install.their] c.keys.theirCurrentDHPubKey == old(c.ake.keys.theirCurrentDHPubKey)
 //@   ensures [C01.install.our] result == nil ==> (c.keys.ourPreviousDHKeys.priv === old(c.ake.keys.ourCurrentDHKeys.priv) && c.keys.ourPreviousDHKeys.pub == old(c.ake.keys.ourCurrentDHKeys.pub))
+
+// ---------------------------------------------------------------------------
+// ake.go: checks performed on AKE messages (C01, C06)
+// ---------------------------------------------------------------------------
+//@ ghoststate commitok Bool
+//@ ghoststate akemacok Bool
+//@ ghoststate sigok Bool
+//@ ghostfn bs_sub(BS, BV64, BV64) BS
+
+//@ define inGroup(n) = 2 <= val(n) && val(n) <= val(pMinusTwo)
+
+//@ func isGroupElement
+//@   requires n != nil
+//@   pure
+//@   ensures [C01.group.range,C12.group.range] result <==> inGroup(n)
+
+//@ func extractGx
+//@   pure
+//@   ensures [C01.gx.range] result1 == nil ==> (result0 != nil && inGroup(result0))
+//@   ensures [C01.gx.notrailing] result1 == nil ==> (len(decryptedGx) >= 4 && 4 + int(be32(decryptedGx, 0)) == len(decryptedGx))
+
+//@ func checkDecryptedGx
+//@   requires v != nil
+//@   pure
+//@   ghostset commitok(nil) = (result == nil)
+//@   ensures [C01.commit] (result == nil) <==> (len(hashedGx) == 32 && bytes(hashedGx) == sha256of(bytes(decryptedGx)))
+
+//@ func sumHMAC
+//@   requires v != nil
+//@   pure
+//@   ensures [C10.hmac.term] fresh(result) && len(result) == 32 && bytes(result) == hashval(hmackind(2, bytes(key)), bs_cat(bs_empty(), bytes(data)))
+
+//@ func verifyEncryptedSignatureMAC
+//@   requires keys != nil && v != nil
+//@   pure
+//@   ghostset akemacok(nil) = (result == nil)
+//@   ensures [C01.mac] (result == nil) ==> len(theirMAC) == 20
+
+//@ func (*Conversation).checkedSignatureVerification
+//@   requires c != nil && theirKey != nil && payloadNonNil(theirKey)
+//@   pure
+//@   ghostset sigok(nil) = (result == nil)
+
+//@ func (*Conversation).processDHKey
+//@   requires c != nil && c.ake != nil
+//@   modifies c.ake.theirPublicValue
+//@   ensures [C01.dhkey.range] (err == nil && old(c.ake.theirPublicValue) == nil) ==> (c.ake.theirPublicValue != nil && inGroup(c.ake.theirPublicValue))
+//@   ensures [C06.dhkey.reject] err != nil ==> c.ake.theirPublicValue == old(c.ake.theirPublicValue)
+//@   ensures [C07.dhkey.same] old(c.ake.theirPublicValue) != nil ==> c.ake.theirPublicValue == old(c.ake.theirPublicValue)
+//@   ensures [C07.dhkey.notsame] old(c.ake.theirPublicValue) == nil ==> !isSame
+
+//@ func (*Conversation).processEncryptedSig
+//@   requires c != nil && c.ake != nil && keys != nil && c.version != nil && c.ake.theirPublicValue != nil && c.ake.ourPublicValue != nil
+//@   modifies anything
+//@   preserves [C01.encsig.frame] c.ake.theirPublicValue, c.ake.ourPublicValue, val(c.ake.theirPublicValue), c.msgState, c.ake, c.version, c.sentRevealSig, c.keys.ourKeyID, c.keys.theirKeyID, c.ourCurrentKey, c.theirInstanceTag, c.ourInstanceTag
+//@   ensures [C01.gate.encsig] result == nil ==> (akemacok(nil) && sigok(nil))
+//@   ensures [C01.theirkey.onlyverified,C06.theirkey.reject] result != nil ==> (c.theirKey == old(c.theirKey) && c.ake.keys.theirKeyID == old(c.ake.keys.theirKeyID))
+//@   ensures [C01.theirkey.set] result == nil ==> c.theirKey != nil
+//@   modifies akemacok(nil), sigok(nil)
+
+//@ func (*Conversation).processRevealSig
+//@   requires c != nil && c.ake != nil && c.version != nil && c.ake.ourPublicValue != nil && c.ake.secretExponent !== nil
+//@   modifies anything
+//@   preserves [C01.revealsig.frame] c.msgState, c.ake, c.version, c.sentRevealSig, c.keys.ourKeyID, c.keys.theirKeyID, c.ourCurrentKey, c.theirInstanceTag, c.ourInstanceTag
+//@   ensures [C01.gate.revealsig] err == nil ==> (commitok(nil) && akemacok(nil) && sigok(nil) && c.ake.theirPublicValue != nil && inGroup(c.ake.theirPublicValue))
+//@   ensures [C01.theirkey.onlyverified.revealsig,C06.theirkey.reject.revealsig] err != nil ==> c.theirKey == old(c.theirKey)
+//@   modifies commitok(nil), akemacok(nil), sigok(nil)
+
+//@ func (*Conversation).processSig
+//@   requires c != nil && c.ake != nil && c.version != nil && c.ake.theirPublicValue != nil && c.ake.ourPublicValue != nil
+//@   modifies anything
+//@   preserves [C01.sig.frame] c.msgState, c.ake, c.version, c.sentRevealSig, c.keys.ourKeyID, c.keys.theirKeyID, c.ourCurrentKey, c.theirInstanceTag, c.ourInstanceTag
+//@   ensures [C01.gate.sig] err == nil ==> (akemacok(nil) && sigok(nil))
+//@   ensures [C01.theirkey.onlyverified.sig,C06.theirkey.reject.sig] err != nil ==> c.theirKey == old(c.theirKey)
+//@   modifies akemacok(nil), sigok(nil)
+
+//@ func ParsePublicKey
+//@   pure
+//@   ensures [C17.pubkey.parse] ok ==> (key != nil && payloadNonNil(key) && within(index, in))
+//@   ensures !ok ==> (key == nil || payloadNonNil(key))
+//@ func (*DSAPublicKey).serialize
+//@   requires pub != nil
+//@   pure
+//@   ensures nonglobal(result) && (result === nil || len(result) >= 2)
+//@ func (*DSAPublicKey).Verify
+//@   requires pub != nil
+//@   pure
+//@   ensures [C01.sig.len] sigOk ==> (len(sig) >= 40 && nextPoint === sig[40:])
+//@ func appendAll
+//@   requires one != nil && two != nil && publicKey != nil && payloadNonNil(publicKey)
+//@   pure
+//@   ensures fresh(result) || result === nil || nonglobal(result)
+
+//@ func (*Conversation).calcAKEKeys
+//@   requires c != nil && c.ake != nil && c.version != nil && s != nil
+//@   modifies c.ssid, c.ake.revealKey.*, c.ake.sigKey.*
+//@   ensures [C10.ake.keys.len] len(c.ake.revealKey.c) == 16 && len(c.ake.sigKey.c) == 16 && len(c.ake.revealKey.m1) == 32 && len(c.ake.revealKey.m2) == 32 && len(c.ake.sigKey.m1) == 32 && len(c.ake.sigKey.m2) == 32
+//@   ensures nonglobal(c.ake.revealKey.c) && nonglobal(c.ake.sigKey.c) && nonglobal(c.ake.revealKey.m1) && nonglobal(c.ake.revealKey.m2) && nonglobal(c.ake.sigKey.m1) && nonglobal(c.ake.sigKey.m2)
+//@ func (*Conversation).calcDHSharedSecret
+//@   requires c != nil && c.ake != nil && c.ake.theirPublicValue != nil
+//@   pure
+//@   ensures [C01.secret.term,C10.secret.term] result != nil && fresh(result) && val(result) == powmod(val(c.ake.theirPublicValue), nat(bytes(c.ake.secretExponent)), val(pct))
+//@ func (*revealSig).deserialize
+//@   requires c != nil && v != nil
+//@   modifies c.*
+//@   ensures [C17.revealsig.parse,C10.accept.revealsig] result == nil ==> (len(c.macSig) == 20 && within(c.encryptedSig, msg) && within(c.macSig, msg))
+//@ func (*sig).deserialize
+//@   requires c != nil
+//@   modifies c.*
+//@   ensures [C17.sig.parse,C10.accept.sig] result == nil ==> (len(c.macSig) == 20 && within(c.encryptedSig, msg) && within(c.macSig, msg))
+//@ func (*dhCommit).deserialize
+//@   requires c != nil
+//@   modifies c.*
+//@   ensures [C17.commit.parse,C10.accept.commit] result == nil ==> (within(c.encryptedGx, msg) && within(c.yhashedGx, msg) && len(msg) >= 8 && len(c.encryptedGx) == old(int(be32(msg, 0))))
+//@ func (*dhKey).deserialize
+//@   requires c != nil
+//@   modifies c.*
+//@   ensures [C17.dhkey.parse,C10.accept.dhkey] result == nil ==> (c.gy != nil && len(msg) >= 4)
